@@ -16,7 +16,7 @@ for f in "$SRC"/*_test.go "$SRC"/demo/*; do [ -f "$f" ] || continue
   [ -n "$dest" ] || dest=$(basename "$f")
   mkdir -p "$(dirname "$dest")"; cp "$f" "$dest"
 done
-RUN=$(head -3 "$SRC"/*_test.go | grep -o "go test [^\`]*" | head -1)
+RUN=$(for f in "$SRC"/*_test.go; do case "$f" in *side*) continue;; esac; head -3 "$f"; done | grep -o "go test [^\`(]*" | head -1 | sed 's/   .*//; s/ *$//')
 [ -n "$RUN" ] || RUN="go test -vet=off -count=1 -run Demo ."
 echo "demo cmd: $RUN"
 if eval "$RUN" >/tmp/seed-$ID-clean.log 2>&1; then echo "demo on clean tree: PASS (expected)"; else echo "demo on clean tree: FAIL (unexpected)"; tail -5 /tmp/seed-$ID-clean.log; fi
